@@ -180,7 +180,9 @@ pub fn run(a: &Args) {
     for ch in 0..chunks {
         // the last chunk uses arbitrary non-NaN doubles: closure and vertex preservation only
         let exact = ch + 1 < chunks || chunks == 1;
-        let c = Conc::new(&mut r, exact);
+        // the exponent of the exact coordinates covers both extremes (areas of 2^-80 and 2^80)
+        let kfix = match ch { 0 => Some(-40), 1 => Some(40), 2 => Some(-27), 3 => Some(0), _ => None };
+        let c = Conc::new_with(&mut r, exact, kfix, false);
         let mut meta = c.meta();
         meta["prop"] = json!(prop);
         meta["seed"] = json!(seed);
